@@ -120,8 +120,13 @@ def make_problem(spec):
 
     scale = float(spec.get("scale", 1.0))
 
+    mutate = bool(spec.get("mutate_arg"))
+
     def fun(x):
         y = scale * base(x) + offset
+        if mutate and isinstance(x, np.ndarray) and x.flags.writeable:
+            x *= 10.0            # a target that works IN PLACE on its argument: what BADS reports must still be the point it was called at
+            x -= 0.5
         if noise in ("auto", "declared"):
             return y + sigma * np.random.randn()
         if noise == "specified":
@@ -149,6 +154,8 @@ def make_problem(spec):
     xk = spec.get("x0", "given")
     if xk == "absent":
         x0 = None
+    elif xk == "atopt":       # started AT the optimum: no improvement from the first iteration on (stall windows)
+        x0 = np.clip(np.asarray(center, dtype=float), np.asarray(lb) + 1e-3, np.asarray(ub) - 1e-3) if np.all(np.isfinite(lb)) else np.asarray(center, dtype=float)
     elif xk == "onbound":
         x0 = np.asarray(lb, dtype=float).copy()
         x0[~np.isfinite(x0)] = -1.0
